@@ -32,13 +32,13 @@ def run(m: Model, r: Report, tier: str) -> None:
     r.check(len(w) == 1 and ast.unparse(w[0].args[0]).replace(" ", "") == "binascii.hexlify(data)+b'\\n'", "R1", f"{cw.qualname}#encoding",
             f"client writes `{ast.unparse(w[0].args[0]) if w else None}`", loc=cw.loc)
     src = ast.unparse(cr.node)
-    r.check(".readline()" in src and ".decode().strip()" in src and "binascii.unhexlify(d)" in src, "R1", f"{cr.qualname}#decoding",
+    r.check(".readline()" in src and ".decode().strip()" in src and m.has(cr, "binascii.unhexlify(d)"), "R1", f"{cr.qualname}#decoding",
             "client read must be readline -> strip -> unhexlify", loc=cr.loc)
     hsrc = ast.unparse(hc.node)
     sw = [n for n in ast.walk(hc.node) if isinstance(n, ast.Call) and ast.unparse(n.func) == "writer.write"]
-    r.check(len(sw) == 1 and ast.unparse(sw[0].args[0]).replace(" ", "") == "hexlify(uds_response_raw)+b'\\n'", "R1", f"{hc.qualname}#encoding",
+    r.check(len(sw) == 1 and m.mtext(hc, sw[0].args[0]).replace(" ", "") == "hexlify(_L)+b'\\n'", "R1", f"{hc.qualname}#encoding",
             f"server writes `{ast.unparse(sw[0].args[0]) if sw else None}`", loc=hc.loc)
-    r.check("await reader.readline()" in hsrc and ".strip()" in hsrc and "unhexlify(tcp_request)" in hsrc, "R1", f"{hc.qualname}#decoding",
+    r.check("await reader.readline()" in hsrc and ".strip()" in hsrc and m.has(hc, "unhexlify(tcp_request)"), "R1", f"{hc.qualname}#decoding",
             "server read must be readline -> strip -> unhexlify", loc=hc.loc)
 
     # ---------------------------------------------------------------- R2
@@ -56,13 +56,13 @@ def run(m: Model, r: Report, tier: str) -> None:
             f"the server loop must take exactly one readline() per request (reads: {[x.func.attr for x in reads]})", loc=hc.loc)
 
     # ---------------------------------------------------------------- R3
-    r.check(any("drain()" in ast.unparse(a) for a in awaits(cw)) and any(ast.unparse(a.value).startswith("asyncio.wait_for(writer.drain(), timeout)") for a in awaits(cw)),
+    r.check(any("drain()" in ast.unparse(a) for a in awaits(cw)) and any(m.mtext(cw, a.value).startswith("asyncio.wait_for(_L.drain(), timeout)") for a in awaits(cw)),
             "R3", f"{cw.qualname}#drain", "client write must await drain under the timeout", loc=cw.loc)
     wi = [i for i, s in enumerate(ast.walk(hc.node)) if isinstance(s, ast.Expr) and "writer.write(" in ast.unparse(s)]
     r.check("await writer.drain()" in hsrc, "R3", f"{hc.qualname}#drain", "server must drain after each reply", loc=hc.loc)
 
     # ---------------------------------------------------------------- R4
-    brk = [n for n in ast.walk(hc.node) if isinstance(n, ast.If) and ast.unparse(n.test) == "not line" and isinstance(n.body[0], ast.Break)]
+    brk = [n for n in ast.walk(hc.node) if isinstance(n, ast.If) and m.mtext(hc, n.test) == "not _L" and isinstance(n.body[0], ast.Break)]
     first_read_line = min((n.lineno for n in reads), default=0)
     strip_line = min((n.lineno for n in ast.walk(hc.node) if isinstance(n, ast.Call) and isinstance(n.func, ast.Attribute) and n.func.attr == "strip"), default=10 ** 9)
     r.check(len(brk) == 1 and first_read_line < brk[0].lineno < strip_line, "R4", f"{hc.qualname}#eof-ends-loop",
@@ -70,7 +70,7 @@ def run(m: Model, r: Report, tier: str) -> None:
             "so a loop that continues instead spins forever and starves every other client", loc=hc.loc)
     conts = [n for n in ast.walk(loops[0]) if isinstance(n, ast.Continue)] if loops else []
     r.check(not conts, "R4", f"{hc.qualname}#no-continue", "the server loop must not `continue` without consuming input", loc=hc.loc)
-    r.check("return binascii.unhexlify(d)" in src, "R4", f"{cr.qualname}#eof-is-empty", "client EOF must surface as b''", loc=cr.loc)
+    r.check(m.has(cr, "binascii.unhexlify(d)"), "R4", f"{cr.qualname}#eof-is-empty", "client EOF must surface as b''", loc=cr.loc)
 
     # ---------------------------------------------------------------- R5
     for q in (f"{SRV}.TCPUDSServerTransport.run", f"{SRV}.UnixUDSServerTransport.run"):
